@@ -467,3 +467,56 @@ def check_C19(tier, seed):
 
 
 CHECKS["C19"] = check_C19
+
+
+# ---------------------------------------------------------------------- C07
+def check_C07(tier, seed):
+    run = Run("C07", tier, seed)
+    quick = tier == "quick"
+    rng = random.Random(seed)
+    run.rule = ("histories: every sequence (to the depth bound) of evaluate() / next / close / drain over one query, exported "
+                "by TLC from the Lazy state machine, plus seeded random walks; each paired with G1 conditions and worlds; the "
+                "domain is handed to the library as a one-shot logging generator; after every step the pull log must be "
+                "exactly the prefix the specification prescribes; non-trivial = history with >=2 evaluations where a later "
+                "evaluation re-reads memoised elements and pulls new ones")
+    run.assumptions = QUERY_ASSUMPTIONS + ["evaluations of one history are sequential: a new evaluation starts only after "
+                                           "the previous iterator was exhausted or closed (two live iterators over one "
+                                           "memoised domain are outside C07's wording)"]
+    run.mc("Lazy", "mech", constants=dict(N=4, MaxLen=8 if quick else 10),
+           invariants=("MemoIsPulled", "PulledIsPrefix"), properties=("PullsOnlyGrow", "NoWorkOnNew"), constraint="Bound")
+    behs = run.export("Lazy", "export", "BEH", constants=dict(N=1, MaxLen=5 if quick else 7), invariants=("Export",),
+                      constraint="Bound", count=False)
+    behs += run.export("Lazy", "walks", "BEH", constants=dict(N=1, MaxLen=12 if quick else 20), invariants=("Export",),
+                       constraint="Bound", simulate=300 if quick else 5000, depth=13 if quick else 21, count=False)
+    progs = run.export("GenQuery", "G1", "PROG", constants=dict(NV=1, LeafLimit=45, MaxLeaves=1 if quick else 2,
+                                                                 MaxNot=1, NeedNot=False), count=False)
+    progs += run.export("GenQuery", "G1-sim", "PROG", constants=dict(NV=1, LeafLimit=45, MaxLeaves=4, MaxNot=2, NeedNot=False),
+                        simulate=300 if quick else 3000, depth=14, count=False)
+    cases = []
+    for b in behs:
+        for _ in range(3 if quick else 6):
+            p = rng.choice(progs)
+            W = datasets.random_world(rng, rng.randint(2, 6))
+            dom = list(range(1, len(W["objs"]) + 1))
+            rng.shuffle(dom)
+            cases.append({"id": len(cases) + 1, "family": "lazy", "W": W, "q": mk_query(p, [dom]), "ops": b})
+    traces = run.replay(cases)
+    rej = run.validate("TraceLazy", traces)
+    by_id = {c["id"]: c for c in cases}
+    for t in traces:
+        if t["id"] in rej:
+            run.violation(by_id[t["id"]], t, rej[t["id"]], family="lazy")
+            continue
+        evs = t["evs"]
+        news = [k for k, e in enumerate(evs) if e["op"] == "new"]
+        if len(news) >= 2:
+            at2 = len(evs[news[1]]["pulls"])
+            if 0 < at2 < len(t["q"]["vars"][0]["dom"]) and len(evs[-1]["pulls"]) > at2:
+                run.nontrivial.add(digest([t["q"]["cond"], [e["op"] for e in evs]]))
+    run.samples = [{"ops": [e["op"] for e in t["evs"]], "domain": t["q"]["vars"][0]["dom"],
+                    "pull_log_after_each_step": [e["pulls"] for e in t["evs"]],
+                    "results": [e["res"] if e["op"] == "next" else e["rows"] for e in t["evs"]]} for t in traces[5:7]]
+    return run.finish()
+
+
+CHECKS["C07"] = check_C07
